@@ -105,8 +105,16 @@ pub fn v_floor_nonneg(a: V) -> i32 {
 }
 
 pub const NSTK: usize = 6;
+// (natively - replay and the self-test on the repository's own test programs - the stacks and
+// output buffers are larger; under Kani they are as small as the grid needs)
+#[cfg(kani)]
 pub const DEPTH: usize = 8;
+#[cfg(not(kani))]
+pub const DEPTH: usize = 64;
+#[cfg(kani)]
 pub const OBUF: usize = 24;
+#[cfg(not(kani))]
+pub const OBUF: usize = 256;
 pub const NPTS: usize = 3;
 
 /// area tree in prefix array form: node i = (type, left, right); type 0 '?', 1 '!', 2..=12 hearts,
